@@ -109,7 +109,7 @@ class P(Prop):
             "collection scattered on the raster summarize returned), late-band (bands added after a pass, for scattered and for new features), change (feature values rewritten between add and "
             "compute and before a second add), two-rasters (two rasters from the SAME Bbox object), nodata (Raster(novalue=x | None), setNoDataValue before the bands / between add and compute / between two computes; 1 in 4 of the other sessions has its own novalue too), errors (compute before add, names taken / empty / without '#' / unknown operator, explicit "
             "grids of right and wrong shape, observations outside), soup (3..9 random calls incl. summarize in scalar / callable / duplicated / ragged / empty argument forms, features x, y, idx); "
-            "after every call the whole object state (geometry, no-data, every band, collectionValuesGrid) is compared with the model; the oracle checks, after every well-formed "
+            "after every call the whole object state (geometry, no-data, every band, collectionValuesGrid) is compared with the model (the bands as a set of named grids: their order is not part of the property); the oracle checks, after every well-formed "
             "addCollectionToRaster, the footprint of every observation's cell and the values kept per cell, and after every computeAggregates EVERY band against the collection scattered LAST; "
             "FEATURE LAYOUTS: the rank of a feature in Obs.features is per track; half of the generated collections (summarize cases of every stream and sessions) give every track its own "
             "layout script — the features created in another order, an extra feature 'aux' created before / between them and kept, a temporary feature removed after others were created (their ranks move down), "
@@ -806,6 +806,16 @@ class P(Prop):
             if "err" in impl_out and "err" in model_out:
                 return None
             return "impl=%s model=%s" % (str(impl_out)[:300], str(model_out)[:300])
+        if case["kind"] == "session" and "steps" in impl_out and "steps" in model_out and len(impl_out["steps"]) == len(model_out["steps"]):
+            # the ORDER of the bands of a raster is not part of the property (the statement speaks of each cell's aggregates): a raster
+            # holding the same bands in another order than the model's (insertion order) agrees with it
+            impl_out, model_out = copy.deepcopy(impl_out), copy.deepcopy(model_out)
+            for a, b in zip(impl_out["steps"], model_out["steps"]):
+                sa, sb = a.get("snap"), b.get("snap")
+                if sa and sb and [n for n, _ in sa["bands"]] != [n for n, _ in sb["bands"]] and \
+                        sorted(n for n, _ in sa["bands"]) == sorted(n for n, _ in sb["bands"]):
+                    sa["bands"].sort(key=lambda nb: nb[0])
+                    sb["bands"].sort(key=lambda nb: nb[0])
         return Prop.compare(self, case, impl_out, model_out)
 
     # ---------------------------------------------------------------- oracle (transfer)
